@@ -930,7 +930,7 @@ Definition chk (c : ccase) : bool :=
   | CDeinit rev k T fs expect final =>
       let tbl := last_use_all (fun _ => policy rev k) fs [] in
       forallb (chk_phase rev k T tbl fs) expect
-      && forallb (fun pf => list_eqb call_eqb (final_deinit T (fst pf) tbl) (snd pf)) final
+      && forallb (fun pf => list_eqb call_eqb (final_deinit exit_deinit_all T (fst pf) tbl) (snd pf)) final
       && Nat.eqb (List.length expect) (List.length fs) && Nat.eqb (List.length final) (List.length fs)
   | CPhases D f_order py_order py_table =>
       let D' := map (fun x => mkPh (fst x) (snd x) []) D in
